@@ -86,6 +86,7 @@ func runConc(args []string) {
 	merge := fs.Bool("merge", false, "a goroutine calls Merge repeatedly")
 	defer func() { concMergeRuns.Store(false) }()
 	backup := fs.Bool("backup", false, "a goroutine calls Backup a few times")
+	fs.BoolVar(&noSMove, "nosmove", false, "the structs workload leaves SMoveByOneBucket / SMoveByTwoBuckets out")
 	mode := fs.Int("mode", 0, "EntryIdxMode")
 	out := fs.String("out", "-", "output trace")
 	fs.Parse(args)
